@@ -5,6 +5,7 @@ import (
 	"go/ast"
 	"go/token"
 	"go/types"
+	"sort"
 	"strings"
 
 	"golang.org/x/tools/go/ssa"
@@ -367,6 +368,7 @@ func r47SchemaCopied(c *core.Ctx) {
 	// every catalogue column lands in the field it describes: SELECT list and Scan destinations agree position by
 	// position (frozen tables of column -> destination; a destination "via:f" is a local that feeds field f)
 	r47ScanMatchesSelect(c, gi, map[string]string{"table_name": "Name", "column_name": "gcolumn", "geometry_type_name": "via:gtype", "srs_id": "via:srs"}, nil)
+	r47GeometryTypeNames(c)
 	if f := c.Anchor(R, "gpkg.getSpatialReferenceSystem"); f != nil {
 		r47ScanMatchesSelect(c, f, map[string]string{"srs_name": "Name", "srs_id": "ID", "organization": "Organization", "organization_coordsys_id": "OrganizationCoordsysID", "definition": "Definition", "description": "via:Description"}, nil)
 	}
@@ -596,4 +598,188 @@ func r48DeviationReported(c *core.Ctx) {
 	}
 	c.Check(R, "warns-from-one-pixel/"+v.Name, v.Decl.Pos(), okWarn, "validation logs the deviation in units exactly when DeviationStats reports >= 1 pixel", "the deviation of an uneven grid is not reported as the property assumes: "+why)
 	c.Floor(R, 2)
+}
+
+// r47GeometryTypeNames: geometryTypeFromString is the inverse of the library's GeometryType.String on every name
+// the library knows.  The library's table is read from its source (the String method's switch); texel's mapping
+// is read from a switch on the upper-cased name, from a map literal, or from a loop over the enum that compares
+// String() -- whichever form the function has.
+func r47GeometryTypeNames(c *core.Ctx) {
+	const R = "R47"
+	f := c.Anchor(R, "gpkg.geometryTypeFromString")
+	if f == nil {
+		return
+	}
+	construct := "geometry-type-names-complete/" + f.Name
+	lib := c.P.ByPath["github.com/go-spatial/geom/encoding/gpkg"]
+	if lib == nil {
+		c.Bad(R, construct, f.Decl.Pos(), "package github.com/go-spatial/geom/encoding/gpkg is not loaded")
+		return
+	}
+	// library: constant -> name
+	libName := map[string]string{} // constant identifier -> NAME
+	constVal := map[string]int64{}
+	for _, file := range lib.Syntax {
+		for _, d := range file.Decls {
+			fd, ok := d.(*ast.FuncDecl)
+			if !ok || fd.Name.Name != "String" || fd.Recv == nil || fd.Body == nil || len(fd.Recv.List) != 1 {
+				continue
+			}
+			if core.TypeShort(lib.TypesInfo.TypeOf(fd.Recv.List[0].Type)) != "github.com/go-spatial/geom/encoding/gpkg.GeometryType" {
+				continue
+			}
+			ast.Inspect(fd.Body, func(n ast.Node) bool {
+				cc, ok := n.(*ast.CaseClause)
+				if !ok || len(cc.List) != 1 || len(cc.Body) != 1 {
+					return true
+				}
+				ret, ok := cc.Body[0].(*ast.ReturnStmt)
+				if !ok || len(ret.Results) != 1 {
+					return true
+				}
+				if name, ok := core.ConstString(lib.TypesInfo, ret.Results[0]); ok {
+					if id, ok := cc.List[0].(*ast.Ident); ok {
+						libName[id.Name] = name
+						if v, ok := core.ConstInt(lib.TypesInfo, id); ok {
+							constVal[id.Name] = v
+						}
+					}
+				}
+				return true
+			})
+		}
+	}
+	if len(libName) < 8 {
+		c.Bad(R, construct, f.Decl.Pos(), fmt.Sprintf("only %d names found in the library's GeometryType.String", len(libName)))
+		return
+	}
+	info := f.Pkg.TypesInfo
+	got := map[string]string{} // NAME -> constant identifier
+	constIdent := func(e ast.Expr) string {
+		if sel, ok := ast.Unparen(e).(*ast.SelectorExpr); ok {
+			if _, isConst := info.Uses[sel.Sel].(*types.Const); isConst {
+				return sel.Sel.Name
+			}
+		}
+		return ""
+	}
+	form := ""
+	// (a) switch cases, (b) map literal entries -- in the function or in a package-level table it looks up
+	collectLits := func(n ast.Node, inf *types.Info) {
+		ast.Inspect(n, func(x ast.Node) bool {
+			switch v := x.(type) {
+			case *ast.CaseClause:
+				if len(v.Body) == 1 {
+					if ret, ok := v.Body[0].(*ast.ReturnStmt); ok && len(ret.Results) == 1 {
+						if cid := constIdent(ret.Results[0]); cid != "" {
+							for _, e := range v.List {
+								if name, ok := core.ConstString(inf, e); ok {
+									got[name] = cid
+									form = "switch"
+								}
+							}
+						}
+					}
+				}
+			case *ast.CompositeLit:
+				if m, ok := inf.TypeOf(v).Underlying().(*types.Map); ok && core.TypeShort(m.Elem()) == "github.com/go-spatial/geom/encoding/gpkg.GeometryType" {
+					for _, el := range v.Elts {
+						if kv, ok := el.(*ast.KeyValueExpr); ok {
+							if name, ok := core.ConstString(inf, kv.Key); ok {
+								if cid := constIdent(kv.Value); cid != "" {
+									got[name] = cid
+									form = "lookup table"
+								}
+							}
+						}
+					}
+				}
+			}
+			return true
+		})
+	}
+	collectLits(f.Decl.Body, info)
+	if len(got) == 0 {
+		// package-level table used by the function
+		ast.Inspect(f.Decl.Body, func(x ast.Node) bool {
+			if id, ok := x.(*ast.Ident); ok {
+				if vr, ok := info.Uses[id].(*types.Var); ok && vr.Parent() == f.Pkg.Types.Scope() {
+					for _, file := range f.Pkg.Syntax {
+						for _, d := range file.Decls {
+							if gd, ok := d.(*ast.GenDecl); ok {
+								for _, sp := range gd.Specs {
+									if vs, ok := sp.(*ast.ValueSpec); ok {
+										for i, nm := range vs.Names {
+											if info.Defs[nm] == vr && i < len(vs.Values) {
+												collectLits(vs.Values[i], info)
+											}
+										}
+									}
+								}
+							}
+						}
+					}
+				}
+			}
+			return true
+		})
+	}
+	if len(got) == 0 {
+		// (c) for g := LO; g <= HI; g++ { if g.String() == name { return g } }
+		ast.Inspect(f.Decl.Body, func(x ast.Node) bool {
+			fs, ok := x.(*ast.ForStmt)
+			if !ok || fs.Init == nil || fs.Cond == nil || fs.Post == nil {
+				return true
+			}
+			as, ok := fs.Init.(*ast.AssignStmt)
+			cond, ok2 := fs.Cond.(*ast.BinaryExpr)
+			inc, ok3 := fs.Post.(*ast.IncDecStmt)
+			if !ok || !ok2 || !ok3 || len(as.Lhs) != 1 || len(as.Rhs) != 1 || inc.Tok != token.INC {
+				return true
+			}
+			lo, okLo := core.ConstInt(info, as.Rhs[0])
+			hi, okHi := core.ConstInt(info, cond.Y)
+			g := core.ObjOf(info, as.Lhs[0])
+			if !okLo || !okHi || g == nil || core.ObjOf(info, cond.X) != g || core.ObjOf(info, inc.X) != g {
+				return true
+			}
+			if cond.Op == token.LSS {
+				hi--
+			} else if cond.Op != token.LEQ {
+				return true
+			}
+			// the body returns g when g.String() equals the name
+			returnsG := false
+			ast.Inspect(fs.Body, func(y ast.Node) bool {
+				if is, ok := y.(*ast.IfStmt); ok && strings.Contains(canon(is.Cond), ".String()==") && len(is.Body.List) == 1 {
+					if ret, ok := is.Body.List[0].(*ast.ReturnStmt); ok && len(ret.Results) == 1 && core.ObjOf(info, ret.Results[0]) == g {
+						returnsG = true
+					}
+				}
+				return true
+			})
+			if returnsG {
+				form = "loop over the enum"
+				for cid, name := range libName {
+					if v, ok := constVal[cid]; ok && v >= lo && v <= hi {
+						got[name] = cid
+					}
+				}
+			}
+			return true
+		})
+	}
+	if len(got) == 0 {
+		c.Unknown(R, construct, f.Decl.Pos(), "the way geometryTypeFromString maps names to geometry types is not understood (not a switch on the name, a lookup table, or a loop over the enum comparing String())")
+		return
+	}
+	var missing []string
+	for cid, name := range libName {
+		if got[name] != cid {
+			missing = append(missing, fmt.Sprintf("%s -> %s (found %q)", name, cid, got[name]))
+		}
+	}
+	sort.Strings(missing)
+	c.Check(R, construct, f.Decl.Pos(), len(missing) == 0, fmt.Sprintf("%s: all %d names the library writes map back to their geometry type", form, len(libName)),
+		"the geometry type of a source table is not copied for every type name: "+strings.Join(missing, "; ")+" (such a table is registered as GEOMETRY in the target)")
 }
